@@ -243,7 +243,9 @@ impl<S: Sample> FrameRenderHandle<S> {
         Ok(RenderedImage::new(self))
     }
 
-    pub fn run(&self, image_region: Region) {
+    pub fn run(&self, _image_region: Region) {
+        // Render for the region this handle was made for, as `run_with_image` does.
+        let image_region = self.image_region;
         // This is a speculative render, possibly picked up by a pool thread while it waits inside
         // the render (or a pool task) of another frame. It may then wait for that very frame, which
         // cannot make progress until this call returns; leave the frame to whoever requests it
